@@ -642,6 +642,17 @@ func (e *Env) call(n *ast.CallExpr) Val {
 			g.emit(fmt.Sprintf("(assert (forall ((x %s)) (! (and (= (un%s (%s x)) x) (not (= (%s x) Bytes_nil))) :pattern ((%s x)))))", srt, m, m, m, m))
 		}
 		return Val{Sort: srt, Term: fmt.Sprintf("(un%s %s)", m, b.Term)}
+	case "jsonok", "jsondec": // jsonok("Sort", bytes) / jsondec("Sort", bytes): the json.Unmarshal model (A-DEP)
+		need(2)
+		srt, _ := strconv.Unquote(args[0].(*ast.BasicLit).Value)
+		g.ensureSortNames(srt)
+		b := e.tr(args[1])
+		okf := g.uf("json_ok_"+mangle(srt), []string{"Str"}, "Bool")
+		decf := g.uf("json_dec_"+mangle(srt), []string{"Str"}, srt)
+		if fn.Name == "jsonok" {
+			return Val{Sort: "Bool", Term: fmt.Sprintf("(%s %s)", okf, b.Term)}
+		}
+		return Val{Sort: srt, Term: fmt.Sprintf("(%s %s)", decf, b.Term)}
 	case "zero": // zero("Sort")
 		need(1)
 		srt, _ := strconv.Unquote(args[0].(*ast.BasicLit).Value)
